@@ -98,7 +98,16 @@ def gen_thick(ctx, n):
         if nx > lim or ny > lim:
             c["res"] = {"x": min(nx, lim), "y": min(ny, lim)} if isinstance(c["res"], dict) else min(nx, lim)
         dtag, ztag = add_depth(r, c, mesh, sref, exact, quick)
-        c["tags"] = ["thick"] + c["tags"][1:5] + [c["op"], dtag, ztag]
+        # some layers carry their own reduction (Layer(operation=...)): it wins over the call's for that layer's rows,
+        # and only the rows reduced by sum / nansum are scaled by the depth step (value and unit)
+        ltag = "call_op_only"
+        if r.random() < (0.55 if len(c["layers"]) > 1 else 0.25):
+            for lay in c["layers"]:
+                if r.random() < 0.6:
+                    lay["op"] = r.choice([o for o in M.OPS if o != c["op"]])
+            if any(l.get("op") for l in c["layers"]):
+                ltag = "layer_ops"
+        c["tags"] = ["thick"] + c["tags"][1:5] + [c["op"] + "|" + ltag, dtag, ztag]
         cases.append(c)
     return cases
 
